@@ -1,5 +1,7 @@
 package main
 
+import "go/ast"
+
 // C12 (and C01's switchboard part): step boundaries of the session state machine in
 // internal/multiplex/session.go and switchboard.go.
 
@@ -69,8 +71,31 @@ func factsSession() {
 		boolFact(g, "recvDecodeErrorReturnsFirst", iDeobf >= 0 && iErr > iDeobf && iErr < iLock && evs[iErr+1].kind != "endif" && idx(evs, iErr, "return", ``) < iLock,
 			"recvDataFromRemote: decode error returns before any session state is touched")
 		boolFact(g, "recvCheckUnderLock", iLock >= 0 && iChk > iLock && iChk < iLook, "recvDataFromRemote: IsClosed tested under streamsM before the table lookup")
-		boolFact(g, "recvInsertEnqueueUnderLock", iIns > iLock && iEnq > iIns && iUnlAfterEnq > iEnq && iIncr > iUnlAfterEnq,
-			"recvDataFromRemote: insert, enqueue, unlock, then count++")
+		iUnlAfterIns := idx(evs, iIns, "call", `^sesh\.streamsM\.Unlock\(\)`)
+		boolFact(g, "recvInsertEnqueueUnderLock", iIns > iLock && iEnq > iLock && iUnlAfterEnq > iEnq && iUnlAfterIns > iIns && iIncr > iUnlAfterEnq && iIncr > iUnlAfterIns,
+			"recvDataFromRemote: insert and enqueue inside one streamsM section, count++ after the unlock")
+		// the enqueue into the accept queue must not block while streamsM is held: it has to be the send case of a select
+		// that has a default branch (a full backlog refuses the stream)
+		nonBlocking := false
+		ast.Inspect(fn.Body, func(n ast.Node) bool {
+			if sel, ok := n.(*ast.SelectStmt); ok {
+				hasSend, hasDefault := false, false
+				for _, c := range sel.Body.List {
+					cc := c.(*ast.CommClause)
+					if cc.Comm == nil {
+						hasDefault = true
+					} else if snd, ok := cc.Comm.(*ast.SendStmt); ok && contains(show(snd), "sesh.acceptCh <- newStream") {
+						hasSend = true
+					}
+				}
+				if hasSend && hasDefault {
+					nonBlocking = true
+				}
+			}
+			return true
+		})
+		plainSends := count(evs, "send", `^sesh\.acceptCh <- newStream`)
+		boolFact(g, "recvEnqueueNonBlocking", nonBlocking && plainSends == 1, "recvDataFromRemote: the accept-queue send is a select case with a default branch (never blocks under streamsM)")
 		iNil := idx(evs, 0, "if", `^existingStream == nil$`)
 		boolFact(g, "recvTombstoneDrops", iNil > 0 && evs[iNil+1].kind == "return" && contains(evs[iNil+1].text, "return nil"), "frame for a tombstoned id is dropped")
 		iCS := idx(evs, 0, "if", `^frame\.Closing == closingSession$`)
